@@ -396,7 +396,7 @@ func checkC07(c *Ctx) {
 	// C07.5 loopback: decoder = receiver model, listener stage = identity, loopback Send = pipe
 	liveSimulation(c, "C07.5", "", "", true)
 	retypingRule(c, "C07.5", "")
-	sendToRule(c, "C07.5")
+	sendToRule(c, "C07.5", 1)
 	loopbackRule(c, "C07.5")
 }
 
@@ -408,7 +408,11 @@ func st0conv(st *State, want, got *IntV) *IntV {
 // sendToRule: the sending wrapper midi.SendTo hands the message's bytes to the port unchanged: the function it returns is
 // interpreted on a symbolic message (any length >= 1); the port's Send must be invoked exactly once with exactly those
 // bytes, and its error returned.
-func sendToRule(c *Ctx, rule string) {
+//
+// calls > 1: the function is called that many times in a row, each time with a fresh message and whatever the port's
+// Send returned before (an error included — the port may have been closed and opened again in between): every call
+// reaches the port once with its own message (C17: nothing the wrapper remembers from an earlier call decides a later one).
+func sendToRule(c *Ctx, rule string, calls int) {
 	p := c.P
 	st0 := p.Func("", "SendTo")
 	if st0 == nil {
@@ -433,31 +437,47 @@ func sendToRule(c *Ctx, rule string) {
 			ok, why = false, "SendTo does not return a function"
 			continue
 		}
-		msg := ex.unknownSlice(o.St, types.Typ[types.Uint8], "msg", 1)
-		want, _ := ex.sliceSegs(o.St, msg)
 		fr := &Frame{fn: fv.Fn, regs: map[ssa.Value]Val{}, visits: map[*ssa.BasicBlock]int{}, widened: map[*ssa.BasicBlock]bool{}, phiHist: map[*ssa.Phi]Val{}, kept: map[*ssa.Phi]keptInv{}}
-		for _, r := range ex.callValue(fr, o.St, fv, []Val{msg}, nil, nil) {
-			n++
-			if r.panic {
-				ok, why = false, "the send function may panic: "+r.msg
-				continue
-			}
-			k := 0
-			for _, e := range r.st.Events {
-				if e.Kind != "call:invoke Send" || len(e.Args) != 1 {
-					continue
+		states := []*State{o.St}
+		for ci := 0; ci < calls && ok; ci++ {
+			var next []*State
+			for _, s0 := range states {
+				msg := ex.unknownSlice(s0, types.Typ[types.Uint8], fmt.Sprintf("msg%d", ci), 1)
+				want, _ := ex.sliceSegs(s0, msg)
+				s0.Events = nil
+				for _, r := range ex.callValue(fr, s0, fv, []Val{msg}, nil, nil) {
+					n++
+					if r.panic {
+						ok, why = false, "the send function may panic: "+r.msg
+						continue
+					}
+					k := 0
+					for _, e := range r.st.Events {
+						if e.Kind != "call:invoke Send" || len(e.Args) != 1 {
+							continue
+						}
+						k++
+						sl, _ := e.Args[0].(*SliceV)
+						got, okG := ex.sliceSegs(r.st, sl)
+						if sl == nil || !okG || !r.st.sameInt(sl.Len, msg.Len) || segsDiffer(r.st, got, want) != "" {
+							ok, why = false, fmt.Sprintf("call %d: the bytes handed to the port (%s, len %s) are not the message's bytes (%s, len %s): %s", ci+1, arrayStringIn(r.st, &ArrayV{Segs: got}), valString(e.Args[0]), arrayStringIn(r.st, &ArrayV{Segs: want}), msg.Len, segsDiffer(r.st, got, want))
+						}
+					}
+					if k != 1 {
+						ok, why = false, fmt.Sprintf("call %d of the send function: the port's Send is invoked %d times for one message (whatever an earlier call returned, the port decides)", ci+1, k)
+					}
+					next = append(next, r.st)
 				}
-				k++
-				sl, _ := e.Args[0].(*SliceV)
-				got, okG := ex.sliceSegs(r.st, sl)
-				if sl == nil || !okG || !r.st.sameInt(sl.Len, msg.Len) || segsDiffer(r.st, got, want) != "" {
-					ok, why = false, fmt.Sprintf("the bytes handed to the port (%s, len %s) are not the message's bytes (%s, len %s): %s", arrayStringIn(r.st, &ArrayV{Segs: got}), valString(e.Args[0]), arrayStringIn(r.st, &ArrayV{Segs: want}), msg.Len, segsDiffer(r.st, got, want))
-				}
 			}
-			if k != 1 {
-				ok, why = false, fmt.Sprintf("the port's Send is invoked %d times for one message", k)
+			states = next
+			if len(states) > 64 {
+				states = states[:64]
 			}
 		}
 	}
-	c.Check(ok && n > 0, rule, "SendTo hands the message bytes to the port unchanged, once", p.Pos(st0.Pos()), "symbolic message of any length >= 1", why)
+	key := "SendTo hands the message bytes to the port unchanged, once"
+	if calls > 1 {
+		key = fmt.Sprintf("SendTo: each of %d consecutive calls of the send function reaches the port once with its own message", calls)
+	}
+	c.Check(ok && n > 0, rule, key, p.Pos(st0.Pos()), "symbolic message of any length >= 1", why)
 }
